@@ -209,6 +209,51 @@ def run(chk):
             chk.nontrivial.add(repr((k, a)))
         if i % 701 == 0:
             chk.sample({'kind': k, 'args': repr(a), 'model,spec': model.get(i)})
+    # ---- XPath 1.0: conversion of non-string arguments by the string functions (C09/XPath1Args.v string1), with libxml2
+    from elementpath import select, ElementPathError
+    chk.prove(['theories/C15/Keys.v', 'theories/C10/Model.v', 'theories/C10/Proofs.v', 'theories/C09/XPath1Args.v'], 'theories/C09/XPath1ArgsProperties.v')
+    A1 = [('true()', 'ABool1 true'), ('false()', 'ABool1 false'), ('(0 div 0)', 'ANum1 NNaN'), ('(1 div 0)', 'ANum1 NPInf'), ('(-1 div 0)', 'ANum1 NNInf'),
+          ('0', 'ANum1 (NFin 0 1)'), ('(-1 * 0)', 'ANum1 (NFin 0 1)'), ('12', 'ANum1 (NFin 12 1)'), ('-7', 'ANum1 (NFin (-7) 1)'), ('(6 div 3)', 'ANum1 (NFin 6 3)'),
+          ('1000000', 'ANum1 (NFin 1000000 1)'), ('123456789012', 'ANum1 (NFin 123456789012 1)'), ('(3 div 2)', 'ANum1 (NFin 3 2)')]
+    a1model = core.run_coq_cases('C09', 'From EP Require Import C15.Keys C09.XPath1Args.', [f'run_string1 ({l})' for _, l in A1], chunk=100, tag='xp1args') if model_ok else [None] * len(A1)
+    lroot1 = LE.fromstring('<r><a>2</a><b>x</b></r>')
+    for (e, l), mo in zip(A1, a1model):
+        if mo is None:
+            continue
+        code_s, spec_s = list(mo[0]), list(mo[1])
+        for form in ('string({})', 'concat({}, "")', 'substring-before(concat({}, "|"), "|")', 'normalize-space({})'):
+            expr = form.format(e)
+            chk.evaluations += 1
+            chk.count('xpath1-args')
+            r = impl(expr, {}, XPath1Parser)
+            got = cps(r[1]) if r[0] == 'val' and isinstance(r[1], str) else list(r)
+            desc = {'parser': 'XPath1Parser', 'expr': expr}
+            if code_s[0] == 1 and got != code_s[1:]:
+                chk.corr_fail.append((desc, got, code_s[1:]))
+            if spec_s[0] == 1 and got != spec_s[1:]:
+                if got == code_s[1:] and 'div 0' in e and e != '(0 div 0)':
+                    chk.known('C09-xpath1-infinity-string', desc | {'impl': ''.join(map(chr, got)), 'spec': ''.join(map(chr, spec_s[1:]))})
+                else:
+                    chk.violation('impl-vs-spec', desc, {'impl': got, 'spec': spec_s[1:]})
+            lxv = lroot1.xpath(expr)
+            if spec_s[0] == 1 and cps(lxv) != spec_s[1:] and len(chk.notes) < 10:
+                chk.notes.append(f'spec/libxml2 disagreement on {expr}: libxml2={lxv!r}')
+            chk.nontrivial.add(repr(('xp1args', expr)))
+    # numeric arguments given as strings or nodes (converted with number() in XPath 1.0): substring positions
+    for expr, want in (("substring('12345', '2')", '2345'), ("substring('12345', a)", '2345'), ("substring('12345', b)", ''),
+                       ("substring('12345', 1, '2')", '12'), ("substring('12345', true())", '12345'), ("substring('12345', a, a)", '23')):
+        chk.evaluations += 1
+        try:
+            got = select(lroot1, expr, parser=XPath1Parser)
+        except ElementPathError as ex:
+            got = 'error ' + (ex.code or '').split(':')[-1]
+        if lroot1.xpath(expr) != want:
+            chk.notes.append(f'spec/libxml2 disagreement on {expr}')
+        if got != want:
+            if got == 'error FORG0006' and ("'" in expr.split(',', 1)[1] or ' a' in expr or ' b' in expr):
+                chk.known('C09-xpath1-substring-non-numeric-position', {'expr': expr, 'impl': got, 'spec (libxml2 agrees)': want})
+            else:
+                chk.violation('impl-vs-spec', {'parser': 'XPath1Parser', 'expr': expr}, {'impl': got, 'spec': want})
     # round trip codepoints-to-string(string-to-codepoints(s)) = s and string-length in code points
     for _ in range(100 if quick else 5000):
         s = rstr(8, 'ab\U0001F600é́\t')
